@@ -156,6 +156,24 @@ def declaration(repo, rel, line, name):
     return ' '.join(txt.split(';')[0].split())
 
 
+def scope_names(repo, rel, line):
+    """the identifiers that occur in the enclosing function before <line> - its parameters and earlier locals among
+    them: the text between the end of the previous function and the declaration"""
+    try:
+        lines = (Path(repo) / 'src' / rel).read_text(errors='replace').splitlines()
+    except OSError:
+        return set()
+    # back to the end of the previous function ("}" within the first columns), at most 120 lines
+    start = max(0, line - 121)
+    for j in range(min(line - 2, len(lines) - 1), start, -1):
+        if re.match(r'^\s{0,3}\}', lines[j]):
+            start = j + 1
+            break
+    txt = strip_comments('\n'.join(lines[start:line - 1]))
+    txt = re.sub(r'"(\\.|[^"\\])*"', ' ', txt)
+    return set(re.findall(r'[A-Za-z_]\w*', txt))
+
+
 def short_name(name):
     n = re.sub(r'\[abi:[^\]]*\]', '', name)
     return re.split(r'::', n)[-1].strip()
@@ -181,6 +199,9 @@ def classify(sym, decl):
             init = re.sub(r'"(\\.|[^"\\])*"', ' ', init)
             init = re.sub(r"'(\\.|[^'\\])*'", ' ', init)
             idents = [i for i in re.findall(r'[A-Za-z_]\w*', init) if i not in INIT_LITERAL_WORDS]
+            # ... run-time data = a name that the enclosing function introduces before the declaration (a parameter
+            # or an earlier local); a named constant of namespace scope is as good as a literal
+            idents = [i for i in idents if i in sym.get('scope_names', set())]
             if idents:
                 return 'Mutable', ('const object initialised on first use from run-time data (%s): the first caller '
                                    'decides what every later caller sees' % ', '.join(sorted(set(idents))[:4]))
@@ -212,6 +233,7 @@ def inventory(repo):
     for name in sorted(syms):
         s = syms[name]
         decl = declaration(repo, s['file'], s['line'], name)
+        s['scope_names'] = scope_names(repo, s['file'], s['line']) if s.get('dynamic_init') else set()
         kind, why = classify(s, decl)
         touched = True
         for e in al:
